@@ -35,6 +35,7 @@ SnapMatch(S, js) ==
   /\ \A p \in Peers : pj.peers[p] = js.peers[p]
   /\ pj.conns = js.conns /\ pj.socks = js.socks /\ pj.closed = js.closed /\ pj.cst = js.cst
   /\ \A a \in Apps : pj.apps[a] = js.apps[a]
+  /\ \A i \in 1..Len(pj.tb) : js.tb[i] = -1 \/ js.tb[i] = pj.tb[i]
 
 RECURSIVE Run(_, _, _)
 Run(S, steps, i) ==
